@@ -21,6 +21,7 @@ META = {
             'Not covered: KEY ON bar, INPUT/line editing, DBCS code pages, LOCATE cursor-shape arguments, other pages than page 0, '
             'WRITE/PRINT USING/TAB/SPC/comma zones, VIEW PRINT to row 25 on Tandy/PCjr.',
 }
+META['text'] += ' A refused statement is modelled too (cursor to the start of the next line unless in column 1, message + CHR$(255) + line end written as console output): the model is not re-synchronised from the observation, so state leaked by a refusal is detected.'
 
 ADAPTER_MODES = {
     'cga': [0, 1, 2], 'ega': [0, 1, 2, 7, 8, 9], 'vga': [0, 1, 2, 7, 8, 9], 'mda': [0], 'hercules': [0, 3],
